@@ -17,7 +17,8 @@ Shape(f) == IF f.k = "c" THEN [k |-> "c"] ELSE [k |-> f.k, items |-> [i \in 1..L
 \* a string token matches its operand when it decodes to it; for characters MySQL has no escape for (strconv.Quote writes
 \* \\xNN) the decoding of the Go-quoted form is accepted as well -- fidelity there is a diagnostic, not what C20 states
 StrTokOk(got, want) == got.v = want.v \/ got.v = DqDecode(Sub(Quote(want.v), 2, Len(Quote(want.v)) - 1))
-ToksEq(g, w) == Len(g) = Len(w) /\ \A i \in 1..Len(g) : g[i].t = w[i].t /\ (IF g[i].t = "str" THEN StrTokOk(g[i], w[i]) ELSE g[i].v = w[i].v)
+ToksEq(g, w) == Len(g) = Len(w) /\ \A i \in 1..Len(g) : g[i].t = w[i].t /\ (IF g[i].t = "str" THEN StrTokOk(g[i], w[i])
+                                                                               ELSE g[i].v = w[i].v \/ (w[i].t = "num" /\ w[i].v = <<>>))   \* (text not known to the specification)
 RECURSIVE TreeEq(_, _)
 TreeEq(g, w) == IF g.k # w.k THEN FALSE
                 ELSE IF g.k = "c" THEN ToksEq(g.toks, w.toks)
